@@ -79,6 +79,13 @@ def forbidden_scan():
     return hits
 
 
+# Files that restate what a translator extracted from the Go source and therefore stop compiling when
+# that source changes.  They are listed in _CoqProject (make knows their dependencies) but are not part
+# of the default build: a change of internal/queue breaks only the obligations of the properties that
+# own them (built on demand by coq_check_property_file), not the development every other check needs.
+ISOLATED = ("Proofs/TransitionsProofs.v", "Properties/C02trans.v")
+
+
 def coq_build(targets=None, jobs=16):
     """(Re)generate the Makefile and build the development (full .vo).
     Returns (ok, log)."""
@@ -106,6 +113,8 @@ def coq_build(targets=None, jobs=16):
         cmd = ["make", "-k", "-j%d" % jobs]     # -k: one broken component does not keep the others from being built
         if targets:
             cmd += targets
+        else:
+            cmd += [f[:-2] + ".vo" for f in files if f not in ISOLATED]
         rc, out = run(cmd, cwd=COQ, timeout=3000)
         return rc == 0, out
     finally:
@@ -423,8 +432,12 @@ def prologue(ctx, need_go=True):
     if tr is None:
         raise RuntimeError("translator build failed:\n" + log)
     rc, out = run([tr, REPO, os.path.join(COQ, "Gen")])
-    info["translate_ok"] = rc == 0
+    # exit code 3: only the isolated state-machine extraction (Gen/Transitions.v) failed; the file is then a
+    # stub with empty tables and the queue checks that own Properties/C02trans.v report it (lib/c02trans.py)
+    info["translate_ok"] = rc in (0, 3)
+    info["translate_isolated_failed"] = rc == 3
     info["translate_log"] = out
+    info["translator"] = tr
     hits = forbidden_scan()
     info["forbidden"] = hits
     ok, log = coq_build()
